@@ -3520,7 +3520,7 @@ template< size_t L, size_t S>
       noexcept
 {
    return (lhs.length() != rhs.length())
-          && (::memcmp( lhs.c_str(), rhs.c_str(), lhs.length()) != 0);
+          || (::memcmp( lhs.c_str(), rhs.c_str(), lhs.length()) != 0);
 } // operator !=
 
 
